@@ -10,7 +10,7 @@
 //   rtop <n>                reader-side topology with n beads (sentinel coordinates)
 //   ropen <file> [reuse] | rfirst | rnext | rclose      (reuse: same object as the closed one)
 //   rtop2 ropen2 rfirst2 rnext2 rclose2                 a second reader + topology at the same time
-//   readtop <file>          TopReaderFactory
+//   readtop <file> [src]    TopReaderFactory (src 1/2: re-use the closed trajectory / topology reader object)
 //   tsave <file> <hasYerr> <comment|-> <n> {x y yerr flag}*n   (flag: i o u _ 0)
 //   tload <file>
 //   mwrite <file> <r> <c> v*(r*c) <nlist> idx*           imcio_write_matrix (row-major values)
@@ -142,6 +142,42 @@ json jnum(double v) {
   return json(v);
 }
 
+// a reader object owned through whichever factory created it; classes implementing both
+// interfaces (GROReader, PDBReader, XYZReader, LAMMPSDumpReader) can be used either way
+struct RObj {
+  std::unique_ptr<TrajectoryReader> tr;
+  std::unique_ptr<TopologyReader> tp;
+  explicit operator bool() const { return bool(tr) || bool(tp); }
+  TrajectoryReader *traj() {
+    TrajectoryReader *p = tr ? tr.get() : dynamic_cast<TrajectoryReader *>(tp.get());
+    if (!p) throw std::runtime_error("driver: object is not a trajectory reader");
+    return p;
+  }
+  TopologyReader *top() {
+    TopologyReader *p = tp ? tp.get() : dynamic_cast<TopologyReader *>(tr.get());
+    if (!p) throw std::runtime_error("driver: object is not a topology reader");
+    return p;
+  }
+  void reset() {
+    tr.reset();
+    tp.reset();
+  }
+};
+
+// %XX escapes in a token (comment texts with blanks and real newlines)
+std::string unescape(const std::string &s) {
+  std::string o;
+  for (size_t i = 0; i < s.size(); ++i) {
+    if (s[i] == '%' && i + 2 < s.size() + 1) {
+      o.push_back(char(std::stoi(s.substr(i + 1, 2), nullptr, 16)));
+      i += 2;
+    } else {
+      o.push_back(s[i]);
+    }
+  }
+  return o;
+}
+
 char flagOf(const std::string &s) {
   if (s == "_") return ' ';
   if (s == "0") return '\0';
@@ -176,7 +212,8 @@ int main() {
 
   std::unique_ptr<Topology> wt, rts[2];
   std::unique_ptr<TrajectoryWriter> writer, idleWriter;  // idle: closed object kept for re-use
-  std::unique_ptr<TrajectoryReader> readers[2], idleReaders[2];
+  RObj readers[2], idleReaders[2];
+  RObj idleTop;  // the object that served the last ReadTopology
   bool hv = false, hf = false;
 
   std::string line;
@@ -196,8 +233,8 @@ int main() {
       cmd.pop_back();
     }
     std::unique_ptr<Topology> &rt = rts[slot];
-    std::unique_ptr<TrajectoryReader> &reader = readers[slot];
-    std::unique_ptr<TrajectoryReader> &idleReader = idleReaders[slot];
+    RObj &reader = readers[slot];
+    RObj &idleReader = idleReaders[slot];
     try {
       if (cmd == "top") {
         Index n;
@@ -283,31 +320,51 @@ int main() {
         }
         res["ok"] = true;
       } else if (cmd == "ropen") {
+        // src 0: new object from TrjReaderFactory; 1: the SAME reader object after Close() (possibly
+        // after a reported error); 2: the object that served the last ReadTopology
         std::string file;
-        int reuse = 0;
-        in >> file >> reuse;
-        if (reuse) {  // the SAME reader object, after Close() (possibly after a reported error)
+        int src = 0;
+        in >> file >> src;
+        if (src == 1) {
           if (!idleReader) throw std::runtime_error("driver: no reader object to re-use");
           reader = std::move(idleReader);
+        } else if (src == 2) {
+          if (!idleTop) throw std::runtime_error("driver: no topology reader object to re-use");
+          reader = std::move(idleTop);
         } else {
-          reader = TrjReaderFactory().Create(file);
+          reader.reset();
+          reader.tr = TrjReaderFactory().Create(file);
         }
         if (!reader) throw std::runtime_error("driver: no reader for " + file);
-        res["ret"] = reader->Open(file);
+        res["ret"] = reader.traj()->Open(file);
       } else if (cmd == "rfirst" || cmd == "rnext") {
-        bool r = (cmd == "rfirst") ? reader->FirstFrame(*rt) : reader->NextFrame(*rt);
+        bool r = (cmd == "rfirst") ? reader.traj()->FirstFrame(*rt) : reader.traj()->NextFrame(*rt);
         res = dumpTop(*rt, false);
         res["ret"] = r;
       } else if (cmd == "rclose") {
-        reader->Close();
+        reader.traj()->Close();
         idleReader = std::move(reader);
         res["ok"] = true;
       } else if (cmd == "readtop") {
+        // src 0: new object from TopReaderFactory; 1: the closed trajectory reader object; 2: the
+        // object of the previous ReadTopology
         std::string file;
-        in >> file;
-        std::unique_ptr<TopologyReader> tr = TopReaderFactory().Create(file);
-        if (!tr) throw std::runtime_error("driver: no topology reader for " + file);
+        int src = 0;
+        in >> file >> src;
+        RObj o;
+        if (src == 1) {
+          if (!idleReaders[0]) throw std::runtime_error("driver: no reader object to re-use");
+          o = std::move(idleReaders[0]);
+        } else if (src == 2) {
+          if (!idleTop) throw std::runtime_error("driver: no topology reader object to re-use");
+          o = std::move(idleTop);
+        } else {
+          o.tp = TopReaderFactory().Create(file);
+        }
+        if (!o) throw std::runtime_error("driver: no topology reader for " + file);
         Topology tt;
+        TopologyReader *tr = o.top();
+        idleTop = std::move(o);   // kept also when ReadTopology throws
         bool r = tr->ReadTopology(file, tt);
         res = dumpTop(tt, true);
         res["ret"] = r;
@@ -329,7 +386,7 @@ int main() {
           else
             t.set(i, x, y, flagOf(fl));
         }
-        if (comment != "-") t.set_comment(comment);
+        if (comment != "-") t.set_comment(unescape(comment));
         t.Save(file);
         res["ok"] = true;
       } else if (cmd == "tload") {
@@ -450,6 +507,9 @@ int main() {
   for (int k = 0; k < 2; ++k) {
     readers[k].reset();
     idleReaders[k].reset();
+  }
+  idleTop.reset();
+  {
   }
   std::cout.rdbuf(out.rdbuf());
   return 0;
